@@ -149,9 +149,49 @@ Definition param_names_ok (pkg : pkg_spec) (fuel : nat) (sd : sdecl) : bool :=
   let ps := map (fun p => to_camel_case (last p "")) (selectable_leaves pkg fuel sd) in
   nodup_str ps && forallb (fun p => negb (String.eqb p "") && negb (existsb (String.eqb p) go_keywords)) ps.
 
-(* the guard of the C02 theorems and of the comparison stream *)
-Definition c02_guard (pkg : pkg_spec) (fuel : nat) (sd : sdecl) : bool :=
+(* Go's export rule: a struct of another package can only be built and read through its
+   exported fields; shoot flattens the unexported ones as well and the generated NewT does
+   not compile (finding K_ctor_foreign_unexported) *)
+Definition foreign_fields_exported (pkg : pkg_spec) (fuel : nat) (sd : sdecl) : bool :=
+  forallb (fun o => if occ_emb o then match struct_of pkg (occ_ty o) with
+                                      | Some (sd', args) =>
+                                          String.eqb (sd_pkg sd') "" ||
+                                          forallb (fun tf : tfield => is_exported (fst (fst tf))) (struct_fields (sd', args))
+                                      | None => true end
+                    else true) (all_occ pkg fuel (self_inst sd)).
+
+(* a new:"-" tag on an EMBEDDED field is ignored by shoot: the promoted fields stay
+   parameters (finding K_ctor_embed_tag_ignored) *)
+Definition embed_tags_clean (sd' : sdecl) : bool :=
+  forallb (fun fd => match fd_names fd with [] => negb (tag_is_dash (fd_tag fd)) | _ => true end) (sd_fields sd').
+Definition no_tagged_embed (pkg : pkg_spec) (fuel : nat) (sd : sdecl) : bool :=
+  embed_tags_clean sd &&
+  forallb (fun o => if occ_emb o then match struct_of pkg (occ_ty o) with
+                                      | Some (sd', _) => embed_tags_clean sd'
+                                      | None => true end
+                    else true) (all_occ pkg fuel (self_inst sd)).
+
+(* a def= directive written in the declaration of an embedded struct is not seen when the
+   embedding type is generated: the promoted field is left zero (finding K_ctor_promoted_def_ignored) *)
+Definition decl_any_def (sd' : sdecl) : bool :=
+  existsb (fun fd => match fd_names fd with [] => false | _ => negb (String.eqb (parse_def (fd_doc fd)) "") end)
+          (sd_fields sd').
+Definition no_promoted_def (pkg : pkg_spec) (fuel : nat) (sd : sdecl) : bool :=
+  forallb (fun o => if occ_emb o then match struct_of pkg (occ_ty o) with
+                                      | Some (sd', _) => negb (decl_any_def sd')
+                                      | None => true end
+                    else true) (all_occ pkg fuel (self_inst sd)).
+
+(* the guard of the C02 theorems and of the comparison stream.  [c02_guard_core] is the part
+   the proofs use; the three last conjuncts keep inputs out on which the MODEL is not a
+   description of a compilable program (export rule) or on which the declarative vocabulary
+   of this file would have to take a side (tag on an embed, default of a promoted field) *)
+Definition c02_guard_core (pkg : pkg_spec) (fuel : nat) (sd : sdecl) : bool :=
   depth_bounded pkg fuel sd && wf_structs pkg fuel sd && unambiguous pkg fuel sd &&
   no_embedded_nonstruct pkg fuel sd && no_promoted_excluded pkg fuel sd && no_excluded_def sd &&
   no_excluded_shadow pkg fuel sd &&
   ident_constraints sd && no_double_ptr sd && param_names_ok pkg fuel sd.
+
+Definition c02_guard (pkg : pkg_spec) (fuel : nat) (sd : sdecl) : bool :=
+  c02_guard_core pkg fuel sd &&
+  foreign_fields_exported pkg fuel sd && no_tagged_embed pkg fuel sd && no_promoted_def pkg fuel sd.
